@@ -92,6 +92,11 @@ def rich_world(seed, n_chroms=6, genes_per_chrom=3, groups=3, multimappers=True,
             src = [g for g in w.genes if g.id == "G1_1"][0]
             if pos + (src.end - src.start) + 1000 < w.chrom_len(cname):
                 clone_gene(w, src, "P%d" % (ci + 1), cname, pos)
+        if multimappers and ci == 0:
+            # a tandem paralog on the SAME chromosome (reads whose alignments all sit on one chromosome)
+            src = [g for g in w.genes if g.id == "G1_1"][0]
+            if pos + (src.end - src.start) + 1000 < w.chrom_len(cname):
+                clone_gene(w, src, "Q1", cname, pos)
     add_standard_reads(w, per_transcript=reads_per_t, jitter=3, hidden_cov=hidden_cov)
     if multimappers:
         fam = [g for g in w.genes if g.id == "G1_1" or g.id.startswith("P")]
@@ -108,6 +113,36 @@ def rich_world(seed, n_chroms=6, genes_per_chrom=3, groups=3, multimappers=True,
                     if r is not None:
                         r.truth["multimap"] = True
     if multimappers:
+        # reads with primary and secondary alignment on the same chromosome (tandem paralogs), both coordinate orders
+        tandem = [g for g in w.genes if g.id in ("G1_1", "Q1")]
+        if len(tandem) == 2:
+            for k in range(8):
+                name = "tan%04d" % k
+                ti = rng.randrange(len(tandem[0].transcripts))
+                order = tandem if k % 2 == 0 else tandem[::-1]
+                for j, g in enumerate(order):
+                    r = w.read_from_transcript(g.transcripts[ti], mode="full", name=name, flag=(0 if j == 0 else 256) | rng.choice((0, 16)), mapq=60)
+                    if r is not None:
+                        r.truth["multimap"] = True
+        # reads whose primary alignment is ambiguous between isoforms of ONE gene and whose other alignment is uninformative
+        # (a spliced alignment in intergenic space of another chromosome)
+        src = [g for g in w.genes if g.id == "G1_1"][0]
+        if len(src.transcripts) >= 2 and len(w.chrom_order) >= 2:
+            shared = [e for e in src.transcripts[0].exons if all(e in t.exons for t in src.transcripts[1:2])]
+            bb = src.transcripts[0].exons
+            idx = [i for i in range(len(bb) - 1) if bb[i] in shared and bb[i + 1] in shared and
+                   all((bb[i][1] + 1, bb[i + 1][0] - 1) in t.introns for t in src.transcripts[:2])]
+            other = w.chrom_order[1]
+            free = max([g.end for g in w.genes if g.chrom == other] + [1000]) + 1500
+            if idx and free + 3000 < w.chrom_len(other):
+                i0 = idx[0]
+                for k in range(6):
+                    name = "mmamb%04d" % k
+                    a, b = bb[i0], bb[i0 + 1]
+                    w.make_read(src.chrom, [(a[0] + 20, a[1]), (b[0], b[1] - 20)], name=name, flag=0, mapq=60,
+                                truth={"multimap": True, "class": "primary-ambiguous-within-one-gene"})
+                    w.make_read(other, [(free, free + 150), (free + 700, free + 850), (free + 1400, free + 1550)], name=name, flag=256, mapq=0,
+                                truth={"multimap": True, "class": "secondary-intergenic"})
         fam = [g for g in w.genes if g.id == "G1_1" or g.id.startswith("P")]
         if len(fam) >= 2:
             # ties: no alignment is primary, all are equally good -> the read stays on several loci
